@@ -415,7 +415,9 @@ def install(I: Interp, fs: dict):
         E[nm] = lambda I, a, k, n: a[0] is not NAN
 
     def concat(I, a, k, n):
-        frames = a[0]
+        frames = [f for f in a[0] if f is not None]      # pandas.concat silently drops None entries
+        if not frames:
+            raise I.fault("ValueError", n, "All objects passed were None")
         cols = {}
         for f in frames:
             for c in f.cols:
